@@ -1,5 +1,6 @@
 import Chain33Model.Model.C18
 import Chain33Model.Proofs.C18
+import Chain33Model.Proofs.C18Comp
 /-!
 C18 — Transaction root is consistent, provable and binding.  Property theorems only.
 `β` is any hash domain, `nil` the value Go returns for "no hash", `H2` any two-to-one function
@@ -26,5 +27,48 @@ theorem parallel_eq_seq (nil : β) (H2 : β → β → β) (xs : List β) (ncpu 
 /-- non-vacuity: the chunked branch is really taken (81 leaves, 4 workers: chunks of 16 and a
 last chunk of one leaf that goes through `getMerkleRootPad`). -/
 example : ¬ ((List.range 81).length ≤ 80 ∨ 4 ≤ 1) ∧ stepOf 81 4 = 16 ∧ 81 % 16 = 1 := by decide
+
+/-- The constant-space streaming calculator `Computation` never panics on fewer than 2^32 leaves
+and returns the sequential root, whatever `flage ∈ {1,2,3}` and branch position are given. -/
+theorem computation_root_eq [DecidableEq β] (nil : β) (H2 : β → β → β) (xs : List β) (flage pos : Nat)
+    (hne : xs ≠ []) (hlen : xs.length < 2 ^ 32) (hf : 1 ≤ flage ∧ flage ≤ 3) :
+    ∃ mutated branch, Computation nil H2 xs flage pos = .ok (getMerkleRoot nil H2 xs, mutated, branch) := by
+  unfold Computation
+  have h1 : xs.isEmpty = false := by cases xs <;> simp_all
+  have h2 : ¬ (flage < 1 ∨ flage > 3) := by omega
+  simp only [h1, h2, Bool.false_eq_true, if_false]
+  obtain ⟨st, hfold, hlen32, hF⟩ := fold_spec nil H2 (decide (flage / 2 % 2 = 1)) pos xs []
+    { inner := List.replicate 32 nil, branch := [], matchlevel := 0xff, mutated := false }
+    (by simpa using hlen) (by simp) (Forest.zero 0)
+  simp only [List.length_nil, List.nil_append] at hfold hF
+  simp only [hfold]
+  have hpos : 0 < xs.length := List.length_pos_iff.mpr hne
+  obtain ⟨q, P, B, hF', hP, hB, hget, hcnt⟩ := lowBit_spec nil H2 xs.length 64 0 xs.length xs hF hpos
+    (by have : (2 : Nat) ^ 32 < 2 ^ 64 := by decide
+        omega) (by simp)
+  simp only [hget]
+  have hBne : B ≠ [] := by
+    intro h; rw [h] at hB; simp at hB
+    have := Nat.two_pow_pos (lowBit xs.length 64 0); omega
+  have hPlen : P.length < 2 ^ 32 := by rw [hP, List.length_append] at hlen; omega
+  have hl32 : lowBit xs.length 64 0 ≤ 32 := by
+    by_cases h : lowBit xs.length 64 0 ≤ 32
+    · exact h
+    · have h1 : 2 ^ 33 ≤ 2 ^ lowBit xs.length 64 0 := Nat.pow_le_pow_right (by decide) (by omega)
+      have h2 : 2 ^ lowBit xs.length 64 0 ≤ (2 * q + 1) * 2 ^ lowBit xs.length 64 0 :=
+        Nat.le_mul_of_pos_left _ (by omega)
+      have : (2 : Nat) ^ 32 < 2 ^ 33 := by decide
+      omega
+  obtain ⟨st', hrun, _⟩ := tailLoop_spec nil H2 (decide (flage / 2 % 2 = 1)) 34 xs.length (lowBit xs.length 64 0)
+    (top nil H2 (lowBit xs.length 64 0) B) (decide (st.matchlevel = lowBit xs.length 64 0)) st q P B
+    (by omega) hl32 hPlen hlen32 hF' hBne (by omega) rfl hcnt
+    (by intro _; rw [hB]; have := Nat.two_pow_pos (lowBit xs.length 64 0); omega)
+  rw [← hP] at hrun
+  simp only [hrun]
+  exact ⟨_, _, rfl⟩
+
+/-- non-vacuity: a concrete 3-leaf list over `Nat` with a non-injective "hash". -/
+example : Computation (0 : Nat) (fun a b => 2 * a + 3 * b + 1) [5, 6, 7] 1 0
+    = .ok (getMerkleRoot 0 (fun a b => 2 * a + 3 * b + 1) [5, 6, 7], false, []) := by decide
 
 end C18
